@@ -161,6 +161,8 @@ func describeHeader(h *blockheader.BlockHeader, direct *[]string) string {
 }
 
 func init() {
+	regRunner("C01", runC01)
+	regRunner("C02", runC02)
 	reg("varint.dec", Full, func(a []string) (string, []string) {
 		r := bytes.NewReader(unhx(a[0]))
 		v, err := varint.FromReader(r)
